@@ -173,3 +173,88 @@ func H02b_ManyElements() { H01b_ManyElements() }
 func H03b_LengthPrefix() { H01b_LengthPrefix() }
 func H05b_LengthPrefix() { H01b_LengthPrefix() }
 func H12b_ManyElements() { H01b_ManyElements() }
+
+// H12b_CrossMany: a default-mode instance reads the repeated-field form of a
+// long slice written by a proto-compatible instance (appending reader crossing
+// its growth steps).
+func H12b_CrossMany() {
+	n := []int{8, 9, 16, 17, 33}[vrt.Choice("n", 5)]
+	type row struct {
+		L []string `plenc:"1"`
+		Q []BigIn  `plenc:"2"`
+		Z int      `plenc:"3"`
+	}
+	var in row
+	in.Z = smallSym("Z")
+	in.L = make([]string, n)
+	in.Q = make([]BigIn, n)
+	for i := 0; i < n; i++ {
+		in.L[i] = vrt.String("l", 1)
+		in.Q[i].N = smallSym("qn")
+	}
+	pp := newPlenc(cfgArr)
+	pd := newPlenc(cfgDef)
+	data, err := pp.Marshal(nil, &in)
+	vrt.Assert("marshal ok", err == nil)
+	var out row
+	vrt.Assert("default-mode unmarshal ok", pd.Unmarshal(data, &out) == nil)
+	ok := out.Z == in.Z
+	vrt.Assert("lengths", len(out.L) == n && len(out.Q) == n)
+	if len(out.L) == n && len(out.Q) == n {
+		for i := 0; i < n; i++ {
+			ok = vrt.And(ok, vrt.And(out.L[i] == in.L[i], out.Q[i].N == in.Q[i].N))
+		}
+		vrt.Assert("default mode reads every repeated element", ok)
+	}
+}
+
+// H05b_WideStruct: a struct of many wide scalar fields with two-byte tags
+// whose body crosses 128 bytes (framing shortcuts for "small" structs).
+func H05b_WideStruct() {
+	type wide struct {
+		A uint64  `plenc:"16"`
+		B uint64  `plenc:"17"`
+		C uint64  `plenc:"18"`
+		D uint64  `plenc:"19"`
+		E uint64  `plenc:"20"`
+		F uint64  `plenc:"21"`
+		G uint64  `plenc:"22"`
+		H uint64  `plenc:"23"`
+		I uint64  `plenc:"24"`
+		J uint64  `plenc:"25"`
+		K uint64  `plenc:"26"`
+		L float64 `plenc:"27"`
+	}
+	type outer struct {
+		W wide `plenc:"1"`
+		Z int  `plenc:"2"`
+	}
+	big := func(nm string) uint64 {
+		v := vrt.U64(nm)
+		vrt.Assume(v >= 1<<63)
+		return v
+	}
+	in := outer{W: wide{A: big("a"), B: big("b"), C: big("c"), D: big("d"), E: big("e"), F: big("f"), G: big("g"), H: big("h"), I: big("i"), J: big("j"), K: big("k"), L: 1.5}, Z: smallSym("Z")}
+	p := newPlenc(cfgDef)
+	c, err := p.CodecForType(reflect.TypeOf(in.W))
+	vrt.Assert("codec ok", err == nil)
+	if err != nil {
+		return
+	}
+	tag := []byte{0x0a}
+	ptr := unsafe.Pointer(&in.W)
+	body := c.Append(nil, ptr, nil)
+	framed := c.Append(nil, ptr, tag)
+	vrt.Assert("body is 11*(2+10)+2+8 bytes", len(body) == 142)
+	vrt.Assert("Size(nil) == len(Append)", c.Size(ptr, nil) == len(body))
+	vrt.Assert("Size(tag) == len(Append)", c.Size(ptr, tag) == len(framed))
+	exp := refVarint(append([]byte{}, tag...), uint64(len(body)))
+	vrt.Assert("framing: tag, length, body", vrt.BytesEq(framed, append(exp, body...)))
+	data, err := p.Marshal(nil, &in)
+	vrt.Assert("marshal ok", err == nil)
+	var out outer
+	vrt.Assert("unmarshal ok", p.Unmarshal(data, &out) == nil)
+	vrt.Assert("round trip", vrt.And(out.Z == in.Z, vrt.And(out.W.A == in.W.A, out.W.K == in.W.K)))
+}
+
+func H01b_WideStruct() { H05b_WideStruct() }
